@@ -162,6 +162,15 @@ func main() {
 			b4, _, _, e4 := packfile.VerifPatchDeltaWriter(bytes.NewReader(src), bytes.NewReader(d))
 			extra["roundtrip"] = []bool{e1 == nil && bytes.Equal(b1, tgt), e3 == nil && bytes.Equal(b3, tgt), e4 == nil && bytes.Equal(b4, tgt)}
 			extra["delta"] = hex.EncodeToString(d)
+			if len(tgt) <= 2048 {
+				// the candidate function of the delta index (small targets only; large ones are
+				// reconstructed from the copy commands of the delta)
+				c := packfile.VerifFindMatches(src, tgt)
+				if c == nil {
+					c = [][2]int{}
+				}
+				extra["cands"] = c
+			}
 			return lib.Ok(outBytes(d)), extra
 		}
 		return lib.Err("badcase"), nil
